@@ -19,6 +19,20 @@ class Boom(Exception):
     pass
 
 
+class BoomBase(BaseException):
+    """A section may also be left with an exception that is not an `Exception` (the SDK's own suspend and
+    orphan signals are BaseExceptions)."""
+
+
+def _make_exc(kind, msg):
+    if kind == "base":
+        return BoomBase(msg)
+    if kind == "suspend":
+        from aws_durable_execution_sdk_python.exceptions import SuspendExecution
+        return SuspendExecution(msg)
+    return Boom(msg)
+
+
 def _line_files():
     import aws_durable_execution_sdk_python.threading as m
     return {m.__file__}
@@ -74,10 +88,19 @@ def run_one(cfg, prefix, expect=None):
                         go.wait()
                     if inject == (i, j):
                         obs.append(("raise", i, j))
-                        raise Boom(f"boom-{i}-{j}")
+                        raise _make_exc(cfg.get("exc"), f"boom-{i}-{j}")
                     obs.append(("out", i, j))
             except Boom as e:
                 obs.append(("exc", i, j, "Boom", str(e)))
+            except BaseException as e:  # noqa: BLE001
+                if inject == (i, j) and cfg.get("exc") in ("base", "suspend") and str(e) == f"boom-{i}-{j}":
+                    obs.append(("exc", i, j, "Boom", str(e)))   # the holder's own exception
+                elif isinstance(e, OrderedLockError):
+                    obs.append(("exc", i, j, "OrderedLockError", type(e.source_exception).__name__))
+                elif isinstance(e, Exception):
+                    obs.append(("exc", i, j, type(e).__name__, str(e)))
+                else:
+                    raise
             except OrderedLockError as e:
                 obs.append(("exc", i, j, "OrderedLockError", type(e.source_exception).__name__))
             except Exception as e:  # noqa: BLE001
@@ -246,6 +269,11 @@ def configs(tier):
         for staged in (False, True):
             out.append(({"kind": "counter", "k": k, "sections": sections, "inject": None,
                          "staged": staged, "line": False, "policy": "rtb"}, {"thread": b}, cap))
+        # the section is left with a BaseException that is not an Exception
+        for inj in injections(k, sections)[1:]:
+            for exc in ("base", "suspend"):
+                out.append(({"kind": "lock", "k": k, "sections": sections, "inject": inj, "exc": exc,
+                             "staged": True, "line": False, "policy": "rtb"}, {"thread": max(1, b - 2)}, cap))
     for (k, sections), b in line_b.items():
         for inj in injections(k, sections):
             for staged in (False, True):
